@@ -64,6 +64,9 @@ pub enum Schedule {
     /// collect before the instructions whose ordinal is in the list (ordinals counted from the
     /// moment the schedule is installed, i.e. after VM construction)
     At(Vec<u64>),
+    /// every collection point of the library collects (every call of `run_gc`, wherever it is: end of a form,
+    /// error path, the 8192-cycle test, and any site a change may add), none between them
+    Points,
 }
 
 impl Schedule {
@@ -71,6 +74,7 @@ impl Schedule {
         match self {
             Schedule::None => "none".into(),
             Schedule::Every(k) => format!("every{}", k),
+            Schedule::Points => "points".into(),
             Schedule::At(v) => format!(
                 "at{}",
                 v.iter().map(|x| x.to_string()).collect::<Vec<_>>().join(",")
@@ -83,7 +87,9 @@ impl Schedule {
             Schedule::None => {
                 vm.verif_set_gc_every(None);
                 vm.verif_set_gc_at(vec![]);
+                vm.verif_set_gc_always(false);
             }
+            Schedule::Points => vm.verif_set_gc_always(true),
             Schedule::Every(k) => vm.verif_set_gc_every(Some(*k)),
             Schedule::At(v) => vm.verif_set_gc_at(v.iter().map(|x| x + base).collect()),
         }
@@ -115,7 +121,32 @@ fn run_session(text: &str, sched: &Schedule) -> String {
             if t.trim().is_empty() {
                 break;
             }
-            let r = std::panic::catch_unwind(std::panic::AssertUnwindSafe(|| vm.eval_text(t)));
+            // `Vm::eval_text` (parse, prepare_eval, run) with a ceiling: generated programs terminate by
+            // construction, so a form still running after 5*10^7 instructions or 30 s is a changed VM that loops
+            let r = std::panic::catch_unwind(std::panic::AssertUnwindSafe(|| -> Result<Option<(marwood::cell::Cell, Option<&str>)>, marwood::error::Error> {
+                let (cell, remaining) = parse::parse_text(t)?;
+                vm.prepare_eval(&cell)?;
+                let t0 = std::time::Instant::now();
+                let mut slices = 0u32;
+                loop {
+                    if let Some(v) = vm.run_count(200_000)? {
+                        return Ok(Some((v, remaining)));
+                    }
+                    slices += 1;
+                    if slices >= 250 || t0.elapsed().as_secs() >= 30 {
+                        return Ok(None);
+                    }
+                }
+            }));
+            let r = match r {
+                Ok(Ok(None)) => {
+                    out.push("diverged".into());
+                    break;
+                }
+                Ok(Ok(Some(x))) => Ok(Ok(x)),
+                Ok(Err(e)) => Ok(Err(e)),
+                Err(e) => Err(e),
+            };
             match r {
                 Err(_) => {
                     out.push("panic".into());
@@ -288,9 +319,11 @@ fn schedules_for(rng: &mut Rng, how_many: usize, all: bool) -> Vec<Schedule> {
         }
         v.push(Schedule::At(random_boundaries(rng, 3000, 40)));
         v.push(Schedule::At(random_boundaries(rng, 60000, 200)));
+        v.push(Schedule::Points);
         return v;
     }
-    for _ in 0..how_many {
+    v.push(Schedule::Points);
+    for _ in 1..how_many.max(2) {
         match rng.below(4) {
             0 => v.push(Schedule::At(random_boundaries(rng, 5000, 60))),
             _ => v.push(Schedule::Every(1 + rng.below(16) as usize)),
